@@ -187,7 +187,7 @@ pub fn build_target_with<F: FnOnce(&mut Builder, &mut Rng)>(rng: &mut Rng, cfg: 
         // now and then the stack is a private file mapping with an inaccessible tail of the same
         // file above it (the writer's merged mapping then reaches over unreadable memory)
         let tail = if rng.chance(1, 6) { 2 } else { 0 };
-        let shape = StackShape { pages, sp_offset: sp_off, noaccess_file_tail_pages: tail, ..Default::default() };
+        let shape = StackShape { pages, sp_offset: sp_off, noaccess_file_tail_pages: tail, low: any % 4 == 0, ..Default::default() };
         let name = if cfg.names { Some(random_name(rng)) } else { None };
         b.sentinel(rng, mode, &shape, name, None);
     }
